@@ -10,6 +10,7 @@ import (
 	"net"
 	"net/http"
 	"os"
+	"path/filepath"
 	"sort"
 	"strconv"
 	"strings"
@@ -134,22 +135,70 @@ func NewBackend(name string, g *Group) *Backend {
 	}
 }
 
-var (
-	portMu   sync.Mutex
-	portNext = 21000 + (os.Getpid()%100)*100
+const (
+	portLo, portHi = 21000, 32000 // below the kernel's ephemeral range
+	portBlock      = 500
 )
 
-// nextPort hands out every port at most once per process, from a range below the kernel's ephemeral
-// range: a listener that is closed on purpose ("connection refused") can then never be re-used by
-// another stack's listener or by an outbound connection, and two stacks never share an address.
+var (
+	portMu     sync.Mutex
+	portBlocks []int // indices of the blocks this process holds (each under an exclusive flock until it exits)
+	portCur    int   // next unused port of the newest block
+	portEnd    int
+	portWrap   int // when no block is left to lease: own blocks are walked again from the start
+)
+
+// leaseBlock takes an exclusive advisory lock on one block of the private port range. Several test
+// processes may run at once (checks started in parallel, a background sweep): a listener one of them closes
+// on purpose ("connection refused") must not be picked up by another one's backend.
+func leaseBlock() bool {
+	dir := filepath.Join(os.TempDir(), "verif-portblocks")
+	_ = os.MkdirAll(dir, 0o777)
+	n := (portHi - portLo) / portBlock
+	start := os.Getpid() % n
+	for k := 0; k < n; k++ {
+		idx := (start + k) % n
+		f, err := os.OpenFile(filepath.Join(dir, fmt.Sprintf("block%02d", idx)), os.O_CREATE|os.O_RDWR, 0o666)
+		if err != nil {
+			continue
+		}
+		if syscall.Flock(int(f.Fd()), syscall.LOCK_EX|syscall.LOCK_NB) != nil {
+			f.Close()
+			continue
+		}
+		portLeaseFiles = append(portLeaseFiles, f) // kept open: the lock lives as long as the process
+		portBlocks = append(portBlocks, idx)
+		portCur = portLo + idx*portBlock
+		portEnd = portCur + portBlock
+		return true
+	}
+	return false
+}
+
+var portLeaseFiles []*os.File
+
+// nextPort hands out every port at most once per process (and, through the block leases, to one process at a
+// time): a listener that is closed on purpose can then never be re-used by another stack's listener or by an
+// outbound connection, and two stacks never share an address.
 func nextPort() int {
 	portMu.Lock()
 	defer portMu.Unlock()
-	portNext++
-	if portNext >= 32000 {
-		portNext = 21000
+	if portCur >= portEnd {
+		if !leaseBlock() {
+			// every block is held: walk this process's own blocks again (their early ports are long closed)
+			if len(portBlocks) == 0 {
+				portCur, portEnd = portLo+(os.Getpid()%20)*portBlock, portHi // no lock directory at all: as before
+			} else {
+				idx := portBlocks[portWrap%len(portBlocks)]
+				portWrap++
+				portCur = portLo + idx*portBlock
+				portEnd = portCur + portBlock
+			}
+		}
 	}
-	return portNext
+	p := portCur
+	portCur++
+	return p
 }
 
 // FreePort returns an unused port from the private range.
